@@ -4,6 +4,7 @@
 pub mod be;
 pub mod cffenc;
 pub mod cmapenc;
+pub mod glyfenc;
 pub mod gposenc;
 pub mod gsubenc;
 pub mod varenc;
